@@ -67,4 +67,16 @@ lines.append("")
 lines.append("%d of %d seeded changes are reported by at least one check." % (caught, len(results)))
 if not only:
     open(os.path.join(SEEDED, "RESULTS.md"), "w").write("\n".join(lines) + "\n")
+else:
+    # a partial run: its rows replace / join the rows of the last full table, the closing count is recomputed
+    path = os.path.join(SEEDED, "RESULTS.md")
+    old = open(path).read().splitlines() if os.path.exists(path) else lines[:6]
+    rows = {l.split("|")[1].strip(): l for l in old if l.startswith("| C")}
+    for l in lines:
+        if l.startswith("| C"):
+            rows[l.split("|")[1].strip()] = l
+    head = [l for l in old[:6]] if len(old) >= 6 else lines[:6]
+    body = [rows[k] for k in sorted(rows)]
+    n_any = sum(1 for l in body if "| caught |" in l or "(viol)" in l)
+    open(path, "w").write("\n".join(head + body + ["", "%d of %d seeded changes are reported by at least one check." % (n_any, len(body))]) + "\n")
 print("%d/%d caught" % (caught, len(results)))
